@@ -99,6 +99,10 @@ def main():
         for seed, out in ex.map(validate, seeds):
             mp = V / 'seeded' / seed / 'meta.json'
             meta = json.loads(mp.read_text()) if mp.exists() else {}
+            if 'verif_first' not in meta and seed.split('_')[1].startswith('r'):
+                # verdict of the check as it was when the seed arrived (before any strengthening)
+                meta['verif_first'] = {'verdict': out.get('verdict'), 'reported': out.get('check', {}).get('reported'),
+                                       'verif_commit': sh(['git', '-C', str(V), 'rev-parse', '--short', 'HEAD'])[1].strip()}
             meta['verif'] = out
             mp.write_text(json.dumps(meta, indent=1) + '\n')
             dw, dwi = out.get('demo_without', {}).get('rc'), out.get('demo_with', {}).get('rc')
